@@ -457,6 +457,30 @@ def r8(ctx, rep):
               "(compare `field.alias` with the column names) - read positionally, the second row becomes a=3, b=4", file=f["file"], line=arm["l"], fn=f["path"])
 
 
+TEXT_EDITS = {"lines", "trim", "trim_end", "trim_start", "trim_matches", "trim_end_matches", "trim_start_matches", "replace", "replacen", "split", "splitn", "rsplit", "split_whitespace",
+              "split_terminator", "join", "concat", "to_lowercase", "to_uppercase", "to_ascii_lowercase", "to_ascii_uppercase", "chars", "char_indices", "bytes", "retain", "truncate",
+              "strip_prefix", "strip_suffix", "remove", "pop", "drain", "replace_range", "insert", "insert_str", "rev", "filter", "map"}
+
+
+def r9(ctx, rep):
+    rep.rule("C08.R9", "between the generated statement and the returned text only the formatter and the signature comment touch the text", floor=2)
+    syn = ctx.syn
+    c = syn.fn("sql::compile", crate="prqlc", file_suffix="sql/mod.rs")
+    edits = []
+    for n in walk(c["body"]):
+        if n.get("k") == "mcall" and n["m"] in TEXT_EDITS:
+            recv = show(n["r"], maxdepth=5)
+            # `dialect.map(|d| ..)` builds the comment's target word; everything else operating on text is an edit of the statement
+            if n["m"] == "map" and recv == "dialect":
+                continue
+            edits.append(f".{n['m']}() on {recv}")
+    rep.check(not edits, "statement-text-untouched", f"sql::compile applies {edits} to the statement text: string literals are part of that text, so a line- or character-level edit "
+              "(trimming line ends, replacing characters) changes literal values that span lines or end in blanks", file=c["file"], line=c["l"], fn=c["path"])
+    fm = [n for n in walk(c["body"]) if n.get("k") == "call" and show(n["f"]) == "sqlformat::format"]
+    rep.check(len(fm) == 1 and show(fm[0]["a"][1]).endswith("QueryParams::default()") and show(fm[0]["a"][2]).endswith("FormatOptions::default()"), "formatter-defaults",
+              "the formatter is called once with default parameters and options", file=c["file"], line=c["l"], fn=c["path"])
+
+
 def run(ctx, rep):
-    for r in (r1, r2, r3, r4, r5, r6, r7, r8):
+    for r in (r1, r2, r3, r4, r5, r6, r7, r8, r9):
         rep.guard(r, ctx)
